@@ -359,7 +359,7 @@ def classify(tag, msg, dump=None):
     if dump is not None and 'library' in msg and res2_unaligned(dump):
         return 'res2_partition_not_multiple_of_channels'
     what = 'count' if 'sample count' in msg else 'rejected' if 'rejected' in msg else 'value' if 'library' in msg else 'other'
-    return f'{tag.split(",")[0].strip("(")}:{what}'
+    return f'{tag.split(",")[0].strip("(\x27")}:{what}'
 
 
 def run(tier):
